@@ -8,13 +8,15 @@
 //                      effect in order when read); if the peer was snubbed by D:1 it is un-snubbed first
 //                      and 11 s of virtual time pass.
 //   D:1                choke decision: Peer::set_snubbed(true) on the real choke_queue, at once.
-//                      Must not follow R/C/D:0 directly (generator puts W:0 in between).
+//                      Must not follow R/C/D:0 directly and must be followed by a W (generator puts
+//                      W:0): any stepping of the library afterwards is a write opportunity.
 //   W:k / W:inf        flush the batch, let the library-side socket accept k more bytes, step to
 //                      quiescence, the peer reads everything available; snapshot.
 // Output: see ocaml/c05_driver.ml; after " || " oracle-only fields (not compared with the model):
 //   pay=<1|0 per PIECE: payload equals the content range>  other=<count of non choke/piece msgs>
 #include "config.h"
 
+#include <filesystem>
 #include <map>
 #include <openssl/md5.h>
 
@@ -151,6 +153,7 @@ static std::string run_case(Session& S, const std::string& line) {
       if (!P.tx_pending.empty() && !P.eof) return "ERR:batch-does-not-fit";
       Session::set_send_budget(port, k);
       pump(S, {&P});
+      Session::set_send_budget(port, 0);   // the budget belongs to this write opportunity only
       if (!snaps.empty()) snaps += ";";
       snaps += snapshot(S, T, port);
     } else {
@@ -217,6 +220,7 @@ int main() {
     } catch (torrent::internal_error& e) {
       std::cout << "ERR:internal " << e.what() << "\n";
       std::cout.flush();
+      { std::error_code ec; if (S) std::filesystem::remove_all(S->scratch(), ec); }
       _exit(3);   // the session is not usable after an internal_error; run_sharded restarts after this case
     } catch (std::exception& e) {
       std::cout << "ERR:other " << e.what() << "\n";
